@@ -5,7 +5,7 @@ ID = "C04"
 BOUNDS = {
     "quick": "one Labware.add / Labware.remove / worklist aspirate / dispense from an arbitrary valid state (symbolic per-well volumes and limits); "
              "argument shapes: scalar id, lists of k<=3 ids chosen from 4 candidates (repeats, trough virtual-row aliases) with list / scalar / too-long "
-             "volume arguments, 2-D well slices up to 2x2 with 2-D / scalar / flat volume arguments; additions without, with empty and with named compositions; geometries plate 2x2, 2x3 and trough 3 virtual rows x 2 columns",
+             "volume arguments, 2-D well slices up to 2x2 with 2-D / scalar / flat volume arguments; additions without, with empty and with named compositions; geometries plate 2x2, 2x3 and trough 3 virtual rows x 2 columns; distribute to destination wells that share a position (a well listed twice, virtual rows of one trough column), both devices",
     "thorough": "as quick with k<=4, 2-D slices up to 2x3, plus plates 3x2, 8x2, 1x1 and troughs 1x1, 8x1",
 }
 OUTSIDE = "longer lists, larger slices, other geometries; float rounding of sums (Real arithmetic); histories are covered inductively (arbitrary pre-state)"
